@@ -49,4 +49,10 @@ batch), so Teardown's wait covers the newest acks and they are delivered before 
 down (`C06_stop_drained`). -/
 theorem C06_fact_triggerFlush_waits_unconditionally : triggerFlushWaitsUnconditionally = true := by decide
 
+/-- `Source.Stop` returns exactly the plugin's reply `resp.LastPosition` — no rewrite, in particular no
+fallback to the stored position (model: `stopResult false`, the shape `C06_stop_position_is_last_read`
+and `C06_v1_source_node_ends` are proved for; the other shape hangs: `C06_v1_stop_fallback_hangs`). -/
+theorem C06_fact_stop_returns_plugin_reply :
+    sourceStopReturnExpr = "resp.LastPosition" ∧ sourceStopReturnsPluginReply = true := by decide
+
 end Conduit.Facts.C06
